@@ -135,4 +135,5 @@ func checkC12(p *Program, r *Report) {
 		}
 	}
 	r.Floor("R12.1", "nil array arguments between kernels", n, 3)
+	checkMassBalance(p, r)
 }
